@@ -173,7 +173,7 @@ W(diveq_ref_self) { UNUSED_B; fixed_t x{as_fixed(a)}; acc_div(x, x); return x.v;
 // stateful shapes: the same operation twice in one function with an operand object modified in between; the wrapper
 // returns the SECOND result (argument b2 = b ^ 0x5a5a), the first one is kept alive through a volatile sink. A wrong
 // [[gnu::const]]/[[gnu::pure]] on a function that reads through a reference or `this` lets an optimiser reuse the first result.
-namespace { volatile int64_t verif_sink; }
+namespace { thread_local volatile int64_t verif_sink; } // thread-local: the wrappers are called from many threads at once
 #define REASSIGN_BIN(name, op) \
   W_RT(name##_reassign) { fixed_t p{as_fixed(a)}, s{as_fixed(b)}; fixed_t r1 = p op s; verif_sink = r1.v; s = as_fixed(b ^ 0x5a5a); fixed_t r2 = p op s; return r2.v; } \
   W_RT(name##_reassign_l) { fixed_t p{as_fixed(a)}, s{as_fixed(b)}; fixed_t r1 = p op s; verif_sink = r1.v; p = as_fixed(a ^ 0x5a5a); fixed_t r2 = p op s; return r2.v; }
